@@ -160,12 +160,20 @@ func (c *Ctx) foldSerialiser(r *Report, ser, render *ssa.Function, mode string) 
 	// prefix of it (error returns stop early)
 	_ = c.driverRoles()
 	fo := &InlineOpts{Keep: map[*ssa.Function]bool{}, Loops: true}
-	for _, k := range c.serKeep() {
+	dr0 := c.driverRoles()
+	keepFns := c.serKeep()
+	if mode == "inline" {
+		// inline mode has no declassified case: a wrapper with the serialiser's signature is read in place,
+		// so that an answer it gives without calling back is seen
+		keepFns = []*ssa.Function{dr0.Render, dr0.RenderParam, dr0.Ser, dr0.SerParam}
+	}
+	for _, k := range keepFns {
 		if k != nil {
 			fo.Keep[k] = true
 		}
 	}
 	paths, _ := c.enumPathsOpt(ser, 20000, fo)
+	successSeqs := map[string][][]string{}
 	inconsistent := map[string]bool{}
 	allSeqs := map[string][][]string{}
 	for _, p := range paths {
@@ -192,6 +200,17 @@ func (c *Ctx) foldSerialiser(r *Report, ser, render *ssa.Function, mode string) 
 		allSeqs[typ] = append(allSeqs[typ], seq)
 		if len(seq) > len(cases[typ]) {
 			cases[typ] = seq
+		}
+		if p.Ret != nil && len(p.Ret.Results) > 0 && isNilConst(c.resolve(p.Ret.Results[len(p.Ret.Results)-1], p.Env)) {
+			successSeqs[typ] = append(successSeqs[typ], seq)
+		}
+	}
+	if mode == "inline" {
+		// every successful serialisation of a range boundary has rendered both ends through the serialiser
+		for _, seq := range successSeqs["*expr.RangeBoundary"] {
+			if len(seq) != len(cases["*expr.RangeBoundary"]) {
+				inconsistent["*expr.RangeBoundary"] = true
+			}
 		}
 	}
 	// order-preserving: every path's sequence must be a subsequence of the longest one of its type (an
